@@ -194,8 +194,10 @@ class BlockSeries:
                 try:
                     data[index] = self.eval(*index)
                 except RuntimeError as error:
-                    # Catch recursion errors with an informative message
                     data.pop(index, None)
+                    if type(error) is not RuntimeError:
+                        raise  # An exception of the user's code keeps its type.
+                    # Catch recursion errors with an informative message
                     raise RuntimeError(f"Failed to evaluate {self}[{index}]") from error
                 except BaseException:
                     # Catching BaseException to clean up also after keyboard interrupt
